@@ -88,6 +88,16 @@ def variant(name, otype, ver, p, r, ctx):
             at[0] = A('Cryptographic Algorithm', r.choice([4, 7, 0x16, 1]))
         elif p == 5:
             at[1] = A('Cryptographic Length', r.choice([0, -8, 7, 10 ** 6]))
+        if p in (0, 4, 5) and r.random() < 0.6:
+            # the product algorithm x length: every symmetric algorithm of
+            # the enumeration with the lengths clients commonly send for
+            # some algorithm (parity-less DES sizes included)
+            at[0] = A('Cryptographic Algorithm', r.choice(
+                [1, 2, 3, 0x10, 0x11, 0x12, 0x13, 0x16, 0x0F, 0x17]
+                if p != 4 else list(range(1, 0x2F))))
+            at[1] = A('Cryptographic Length', r.choice(
+                [40, 56, 64, 80, 112, 128, 160, 168, 192, 224, 256, 384, 448,
+                 512, 1024]))
         return {'op': 'Create', 'otype': ot, 'attrs': at}
     if name == 'CreateKeyPair':
         common = [A('Cryptographic Algorithm', 4),
